@@ -254,6 +254,8 @@ func init() {
 }
 
 func runC05(c *rt.Ctx) {
+	configuredEpisode() // the process has a past: failing configured Formatters and Parsers, since restored
+	c.Extra("history_before_the_streams", "an episode of failing configured Formatter/Parser variables in all five packages")
 	c.SetRule("(a) each of the 128 bit positions set/cleared over 6 background IDs; (b) each of the 32 hex positions x 16 digit values x {lower, upper} over the backgrounds under all 4 rule combinations; (c) seeded random IDs through every output path and back; " +
 		"(d) for seeded valid texts in plain and URN form every single-byte substitution (256 values at each of the 36/45 positions), every single insertion and deletion, and prefix case variants, under the 4 rule combinations x {string, []byte}. " +
 		"distinct_nontrivial counts distinct (text, rule) parse events outside the two IDs of the unit suite (sweeps enumerated once each; random IDs by hash)")
